@@ -30,7 +30,7 @@ TIERS = {
 }
 FAULT_NAMES = {"DropField", "WrongType", "LenMismatch", "NegDim", "DupIndex", "IndexOutOfRange", "LengthTooSmall",
                "Truncate", "EmptyFile", "BlankLine", "DropLine", "DropToken", "ExtraToken", "NonNumeric"}
-CFG_FAULTS = {"DropField", "WrongType", "UnknownName", "ParamLen", "ParamElemType", "ChildCount", "Truncate"}
+CFG_FAULTS = {"DropField", "WrongType", "UnknownName", "ParamLen", "ParamElemType", "ParamIndexRange", "ChildCount", "Truncate"}
 ALL_TYPES = {"Float64", "Float32", "Int", "Int8", "Int16", "Int32", "Int64", "Real64", "Real32",
              "ConstFloat64", "ConstFloat32", "ConstInt", "ConstInt8", "ConstInt16", "ConstInt32", "ConstInt64"}
 
